@@ -523,7 +523,7 @@ func c08R3(p *core.Prog, r *core.Report) {
 			if isFSMutator(cal) {
 				w = true
 			}
-			if gfn := core.CalleeFn(c); gfn != nil && (gfn.Name() == "writeIndex" || gfn.Name() == "updateIndex") {
+			if gfn := core.CalleeFn(c); gfn != nil && (canon(gfn) == "writeIndex" || canon(gfn) == "updateIndex") {
 				w = true
 			}
 		})
@@ -790,7 +790,8 @@ func c08R5(p *core.Prog, r *core.Report) {
 	}
 	n := 0
 	for _, fn := range pkgFuncs(p, ocidirRel) {
-		if !strings.Contains(strings.ToLower(fn.Name()), "referrer") {
+		// the referrer helpers: functions that derive the fallback tag of a subject
+		if !callsWhere(fn, func(f *types.Func) bool { return core.IsModFunc(f, "types/referrer", "FallbackTag") }) {
 			continue
 		}
 		core.Calls(fn, func(c ssa.CallInstruction) {
